@@ -95,6 +95,13 @@ let ch_obs hex lim obs chain =
   if chain <> "PANIC" && chain <> "NIL" then begin
     if not (ch_walk obs chain) && !prop_mode = "C03" then
       propfail "C03" (Printf.sprintf "the reported hierarchy %s is not the first-match path over the tree for the verdicts the detectors themselves return on this header: header=%s limit=%s" chain hex lim)
+    else if !prop_mode = "C03" then begin
+      (* "in priority order": the same re-walk over the tree put into the SPECIFIED order of sub-formats (Spec/SpecOrder.v) *)
+      let acc id = let i = int_of_nat id in i < String.length obs && obs.[i] = '1' in
+      let mp = chain_string (chain_of acc tree_pinned) in
+      if mp <> chain then
+        propfail "C03" (Printf.sprintf "priority order: several sub-formats accept this header and the reported hierarchy %s descends into one that the specified priority order lists after another accepting one (first-match path in the specified order: %s): header=%s limit=%s" chain mp hex lim)
+    end
   end;
   if !obs_hooks <> [] then begin
     let raw = bytes_of_hex hex in
